@@ -59,6 +59,8 @@ type Exec struct {
 	roundCache map[int]*Term
 	roundFacts map[int][]*Term
 	feasChecks int
+	widthDone  map[string][]*Term
+	noInvFor   map[*types.Named]bool // types whose invariant is not assumed for parameters (object under construction)
 }
 
 func newExec(w *World, name string, d *Decl) *Exec {
@@ -179,7 +181,9 @@ func (x *Exec) freshStruct(name string, n *types.Named, depth int, st *State, in
 		f := s.Field(i)
 		v.F[f.Name()] = x.freshField(name+"."+f.Name(), n, f, depth+1, st, input)
 	}
-	x.assumeTypeInv(v, st)
+	if !x.noInvFor[n] {
+		x.assumeTypeInv(v, st)
+	}
 	return v
 }
 
@@ -397,6 +401,45 @@ func (x *Exec) contractCall(callee *types.Func, d *Decl, args []Value, st *State
 			st.assume(mkNot(t))
 		}
 	}
+	// frame: fields the callee may modify are havocked (fresh value of the declared shape)
+	for _, mf := range d.Modifies {
+		parts := strings.SplitN(mf, ".", 2)
+		if len(parts) != 2 {
+			unsup("modifies clause %q", mf)
+		}
+		found := false
+		ci := 0
+		bindName := func(n string, v Value) {
+			if n != parts[0] {
+				return
+			}
+			found = true
+			rv, ok := v.(RefV)
+			if !ok {
+				unsup("call of %s modifies %s, but the argument is not a heap object under construction", callee.Name(), mf)
+			}
+			stt := rv.T.Underlying().(*types.Struct)
+			for i := 0; i < stt.NumFields(); i++ {
+				if stt.Field(i).Name() == parts[1] {
+					st.setField(rv.ID, parts[1], x.freshField("h_"+mf, rv.T, stt.Field(i), 1, st, false))
+				}
+			}
+		}
+		if sig.Recv() != nil && sig.Recv().Name() != "" {
+			bindName(sig.Recv().Name(), cargs[ci])
+			ci++
+		}
+		for i := 0; i < sig.Params().Len(); i++ {
+			p := sig.Params().At(i)
+			if p.Name() != "" && p.Name() != "_" {
+				bindName(p.Name(), cargs[ci])
+				ci++
+			}
+		}
+		if !found {
+			unsup("modifies clause %q names no parameter", mf)
+		}
+	}
 	// result
 	var res Value
 	var rvals []Value
@@ -407,7 +450,9 @@ func (x *Exec) contractCall(callee *types.Func, d *Decl, args []Value, st *State
 		res = x.freshValue(name, sig.Results().At(0).Type(), 0, st, false)
 		if s, ok := res.(*StructV); ok {
 			s.Nil = tFalse
-			_ = s
+			if d.nullable() {
+				s.Nil = freshVar(name+".nil", SBool)
+			}
 		}
 		rvals = []Value{res}
 	default:
@@ -433,7 +478,7 @@ func (x *Exec) contractCall(callee *types.Func, d *Decl, args []Value, st *State
 		}
 	}
 	for _, c := range d.Clauses {
-		if c.Kind == "ensures" {
+		if c.Kind == "ensures" || c.Kind == "derived" {
 			t := x.evalClause(pk, c, append(append(append([]Value{}, cargs...), gvals...), rvals...), st)
 			st.assume(t)
 		}
